@@ -590,7 +590,13 @@ def report_context(qr, what, prefix):
     if len(qr.violations) >= MAX_VIOLATIONS or any(v["message"] == what for v in qr.violations):
         return
     tpl, sub_ops = prefix or ("{core}", [])
-    ops = [{"op": "checksig", "kind": "p2pk", "m": 1, "n": 1, "separator": False, "lock_tpl": tpl, "sub_prefix_ops": sub_ops, "flag": fl, "value": 5000} for fl in (0x41, 0x01)]
+    # the shapes with a symbolic condition are replayed with both outcomes of the condition (either branch may be the deviating one)
+    tpls = [tpl]
+    if tpl.startswith("OP_1 OP_IF") and "OP_1 OP_IF OP_1" not in tpl and "OP_CODESEPARATOR OP_NOP OP_ENDIF" not in tpl:
+        tpls.append("OP_0" + tpl[4:])
+    if tpl.startswith("OP_0 OP_NOTIF"):
+        tpls.append("OP_1" + tpl[4:])
+    ops = [{"op": "checksig", "kind": "p2pk", "m": 1, "n": 1, "separator": False, "lock_tpl": t, "sub_prefix_ops": sub_ops, "flag": fl, "value": 5000} for t in tpls for fl in (0x41, 0x01)]
     req = {"tx": {"version": 1, "locktime": 0, "inputs": [], "outputs": []}, "ops": ops}
     nat = {p: C.Native.run(req, p) for p in ("debug", "release")}
     probs = sorted({p for v in nat.values() for o in v for p in (o.get("ok", {}).get("problems", []) if isinstance(o.get("ok"), dict) else ["tool: " + json.dumps(o)[:160]])})
